@@ -569,3 +569,314 @@ Section Range.
     congruence.
   Qed.
 End Range.
+
+(* ================================================================== make_filtration_non_decreasing *)
+Lemma facets_subseq : forall s b, In b (facets s) -> subseq b s.
+Proof.
+  induction s as [|x t IH]; intros b H; cbn [facets] in H; [destruct H|].
+  destruct H as [H|H]; [subst; apply sub_skip; apply subseq_refl|].
+  apply in_map_iff in H. destruct H as (b' & E & I). subst. apply sub_cons. apply IH. exact I.
+Qed.
+
+Lemma facets_length : forall s b, In b (facets s) -> S (length b) = length s.
+Proof.
+  induction s as [|x t IH]; intros b H; cbn [facets] in H; [destruct H|].
+  destruct H as [H|H]; [subst; reflexivity|].
+  apply in_map_iff in H. destruct H as (b' & E & I). subst. cbn [length]. f_equal. apply IH. exact I.
+Qed.
+
+Lemma subseq_facet : forall t s, subseq t s -> t <> s -> exists b, In b (facets s) /\ subseq t b.
+Proof.
+  intros t s H. induction H as [|x t s H IH|x t s H IH]; intros N.
+  - congruence.
+  - destruct IH as (b & Ib & Sb); [congruence|]. exists (x :: b). split; [|apply sub_cons; exact Sb].
+    cbn [facets]. right. apply in_map. exact Ib.
+  - exists s. split; [cbn [facets]; left; reflexivity | exact H].
+Qed.
+
+Lemma subseq_singleton : forall t x, subseq t [x] -> t <> [] -> t = [x].
+Proof.
+  intros t x H N. inversion H as [|? ? ? H'|? ? ? H']; subst.
+  - inversion H'; subst. reflexivity.
+  - inversion H'; subst. congruence.
+Qed.
+
+(* a facet is visited before the simplex by rec_for_each_simplex *)
+Lemma facet_dfs_lt : forall s b, incr s -> In b (facets s) -> dfs_lt b s = true.
+Proof.
+  induction s as [|x t IH]; intros b I H; cbn [facets] in H; [destruct H|].
+  unfold incr in I. inversion I as [|? ? I' F]; subst.
+  destruct H as [H|H].
+  - subst. destruct b as [|y b]; [reflexivity|]. cbn [dfs_lt].
+    rewrite Forall_forall in F. specialize (F y (or_introl eq_refl)).
+    assert (Z.eqb y x = false) as -> by lia. lia.
+  - apply in_map_iff in H. destruct H as (b' & E & Ib). subst. cbn [dfs_lt]. rewrite Z.eqb_refl. apply IH; assumption.
+Qed.
+
+Section Mfnd.
+  Variable V : Type.
+  Variable vlt : V -> V -> bool.
+  Hypothesis SW : StrictWeak vlt.
+
+  Let irr := sw_irrefl vlt SW.
+  Let tra := sw_trans vlt SW.
+  Let ntr := sw_negtrans vlt SW.
+
+  Definition relax_f (K : cplx V) (cm : V * bool) (b : simplex) : V * bool :=
+    match lookup K b with
+    | Some fb => if vlt (fst cm) fb then (fb, true) else cm
+    | None => cm
+    end.
+
+  Lemma relax_unfold : forall K s cur, relax vlt K s cur = fold_left (relax_f K) (facets s) (cur, false).
+  Proof. reflexivity. Qed.
+
+  Lemma relax_fold : forall K bs c0 m0,
+    (fst (fold_left (relax_f K) bs (c0, m0)) = c0 \/ exists b, In b bs /\ lookup K b = Some (fst (fold_left (relax_f K) bs (c0, m0)))) /\
+    vlt (fst (fold_left (relax_f K) bs (c0, m0))) c0 = false /\
+    (forall b w, In b bs -> lookup K b = Some w -> vlt (fst (fold_left (relax_f K) bs (c0, m0))) w = false) /\
+    (snd (fold_left (relax_f K) bs (c0, m0)) = true <-> m0 = true \/ vlt c0 (fst (fold_left (relax_f K) bs (c0, m0))) = true).
+  Proof.
+    intros K. induction bs as [|b bs IH]; intros c0 m0.
+    - cbn [fold_left fst snd]. repeat split; auto.
+      + intros b w [].
+      + intros [H|H]; [exact H | rewrite irr in H; discriminate].
+    - cbn [fold_left].
+      assert (ST : exists c1 m1, relax_f K (c0, m0) b = (c1, m1) /\
+                   ((c1 = c0 /\ m1 = m0 /\ forall w, lookup K b = Some w -> vlt c0 w = false) \/
+                    (lookup K b = Some c1 /\ m1 = true /\ vlt c0 c1 = true))).
+      { unfold relax_f. cbn [fst]. destruct (lookup K b) as [fb|] eqn:L.
+        - destruct (vlt c0 fb) eqn:E.
+          + exists fb, true. split; [reflexivity|]. right. auto.
+          + exists c0, m0. split; [reflexivity|]. left. repeat split; auto. intros w Hw. inversion Hw; subst. exact E.
+        - exists c0, m0. split; [reflexivity|]. left. repeat split; auto. intros w Hw. discriminate. }
+      destruct ST as (c1 & m1 & E1 & ST). rewrite E1. destruct (IH c1 m1) as (A1 & A2 & A3 & A4).
+      set (r := fold_left (relax_f K) bs (c1, m1)) in *.
+      destruct ST as [(Ec & Em & Hb)|(Lb & Em & Hlt)].
+      + subst c1 m1. repeat split.
+        * destruct A1 as [A1|(b' & Ib & Lb')]; [left; exact A1 | right; exists b'; split; [right; exact Ib | exact Lb']].
+        * exact A2.
+        * intros b' w [Ib|Ib] Lw; [subst b'; eapply ntr; [exact A2 | apply Hb; exact Lw] | eapply A3; eassumption].
+        * apply A4.
+        * apply A4.
+      + subst m1.
+        assert (G : vlt c0 (fst r) = true) by (eapply (vlt_lt_le V vlt SW); eassumption).
+        repeat split.
+        * right. destruct A1 as [A1|(b' & Ib & Lb')]; [exists b; split; [left; reflexivity | rewrite A1; exact Lb] | exists b'; split; [right; exact Ib | exact Lb']].
+        * eapply ntr; [exact A2|]. apply (vlt_asym V vlt SW). exact Hlt.
+        * intros b' w [Ib|Ib] Lw; [subst b'; rewrite Lb in Lw; inversion Lw; subst; exact A2 | eapply A3; eassumption].
+        * intros _. right. exact G.
+        * intros _. apply A4. left. reflexivity.
+  Qed.
+
+  Variable K0 : cplx V.
+  Hypothesis WF : wf K0.
+  Hypothesis CL : closed K0.
+
+  Definition inv (done : list simplex) (st : cplx V * bool) : Prop :=
+    map fst (fst st) = map fst K0 /\
+    (forall s, In s done -> In s (map fst K0) -> exists v, lookup (fst st) s = Some v /\ is_sup vlt K0 s v) /\
+    (forall s, ~ In s done -> lookup (fst st) s = lookup K0 s) /\
+    (snd st = true <-> exists s v0 v, In s done /\ lookup K0 s = Some v0 /\ lookup (fst st) s = Some v /\ vlt v0 v = true).
+
+  Lemma inv_step : forall done st s, inv done st -> ~ In s done -> In s (map fst K0) ->
+    (forall b, In b (facets s) -> b <> [] -> In b done) ->
+    inv (done ++ [s]) (mfnd_step vlt st s).
+  Proof.
+    intros done [K m] s (I1 & I2 & I3 & I4) Nd Ks Fd. cbn [fst snd] in *.
+    destruct (lookup_some_key K0 s Ks) as [cur Lcur].
+    assert (LK : lookup K s = Some cur) by (rewrite I3; assumption).
+    destruct s as [|x [|y t]].
+    - exfalso. destruct WF as [_ W]. destruct (W [] Ks) as [X _]. congruence.
+    - (* a vertex: nothing is done *)
+      cbn [mfnd_step]. unfold inv. cbn [fst snd]. repeat split.
+      + exact I1.
+      + intros s Hs Hk. apply in_app_or in Hs. destruct Hs as [Hs|[Hs|[]]]; [apply I2; assumption|]. subst s.
+        exists cur. split; [exact LK|]. split.
+        * exists [x]. repeat split; [apply subseq_refl | discriminate | exact Lcur].
+        * intros t w St Nt Lt. apply subseq_singleton in St; [|exact Nt]. subst t. rewrite Lcur in Lt. inversion Lt; subst. apply irr.
+      + intros s Hs. apply I3. intros X. apply Hs. apply in_or_app. left. exact X.
+      + intros Hm. apply I4 in Hm. destruct Hm as (s & v0 & v & Hs & R). exists s, v0, v. split; [apply in_or_app; left; exact Hs | exact R].
+      + intros (s & v0 & v & Hs & L0 & L1 & Hlt). apply in_app_or in Hs. destruct Hs as [Hs|[Hs|[]]].
+        * apply I4. exists s, v0, v. auto.
+        * subst s. rewrite Lcur in L0. rewrite LK in L1. inversion L0; inversion L1; subst. rewrite irr in Hlt. discriminate.
+    - (* dimension >= 1 *)
+      set (s := x :: y :: t) in *.
+      assert (STEP : mfnd_step vlt (K, m) s = (update K s (fst (relax vlt K s cur)), m || snd (relax vlt K s cur))).
+      { unfold s. cbn [mfnd_step fst snd]. fold s. rewrite LK. reflexivity. }
+      rewrite STEP. clear STEP. rewrite relax_unfold.
+      destruct (relax_fold K (facets s) cur false) as (R1 & R2 & R3 & R4).
+      set (r := fold_left (relax_f K) (facets s) (cur, false)) in *.
+      assert (Ks' : In s (map fst K)) by (rewrite I1; exact Ks).
+      (* the facets are finished *)
+      assert (FB : forall b, In b (facets s) -> exists vb, lookup K b = Some vb /\ is_sup vlt K0 b vb).
+      { intros b Hb. assert (Nb : b <> []). { apply facets_length in Hb. unfold s in Hb. cbn [length] in Hb. destruct b; [discriminate | discriminate]. }
+        apply I2; [apply Fd; assumption|]. eapply CL; [exact Ks | apply facets_subseq; exact Hb | exact Nb]. }
+      assert (SUP : is_sup vlt K0 s (fst r)).
+      { split.
+        - destruct R1 as [R1|(b & Hb & Lb)].
+          + exists s. rewrite R1. repeat split; [apply subseq_refl | discriminate | exact Lcur].
+          + destruct (FB b Hb) as (vb & Lvb & (t' & St & Nt & Lt) & _). rewrite Lb in Lvb. inversion Lvb; subst vb.
+            exists t'. repeat split; [eapply subseq_trans; [exact St | apply facets_subseq; exact Hb] | exact Nt | exact Lt].
+        - intros t' w St Nt Lt. destruct (simplex_eq_dec t' s) as [E|N].
+          + subst t'. rewrite Lcur in Lt. inversion Lt; subst. exact R2.
+          + destruct (subseq_facet _ _ St N) as (b & Hb & Sb). destruct (FB b Hb) as (vb & Lvb & _ & UB).
+            eapply ntr; [eapply R3; eassumption | eapply UB; eassumption]. }
+      unfold inv. cbn [fst snd]. repeat split.
+      + rewrite update_keys. exact I1.
+      + intros s' Hs Hk. apply in_app_or in Hs. destruct Hs as [Hs|[Hs|[]]].
+        * rewrite lookup_update_other; [apply I2; assumption | intros E; subst; contradiction].
+        * subst s'. exists (fst r). split; [apply lookup_update_same; exact Ks' | exact SUP].
+      + intros s' Hs. rewrite lookup_update_other; [apply I3; intros X; apply Hs; apply in_or_app; left; exact X|].
+        intros E. apply Hs. apply in_or_app. right. left. auto.
+      + intros Hm. apply orb_true_iff in Hm. destruct Hm as [Hm|Hm].
+        * apply I4 in Hm. destruct Hm as (s' & v0 & v & Hs & L0 & L1 & Hlt). exists s', v0, v.
+          split; [apply in_or_app; left; exact Hs|]. split; [exact L0|]. split; [|exact Hlt].
+          rewrite lookup_update_other; [exact L1 | intros E; subst; contradiction].
+        * apply R4 in Hm. destruct Hm as [Hm|Hm]; [discriminate|]. exists s, cur, (fst r).
+          split; [apply in_or_app; right; left; reflexivity|]. split; [exact Lcur|]. split; [apply lookup_update_same; exact Ks' | exact Hm].
+      + intros (s' & v0 & v & Hs & L0 & L1 & Hlt). apply orb_true_iff. apply in_app_or in Hs. destruct Hs as [Hs|[Hs|[]]].
+        * left. apply I4. exists s', v0, v. rewrite lookup_update_other in L1; [auto | intros E; subst; contradiction].
+        * subst s'. right. apply R4. right. rewrite Lcur in L0. inversion L0; subst v0.
+          rewrite lookup_update_same in L1; [|exact Ks']. inversion L1; subst v. exact Hlt.
+  Qed.
+
+  Lemma mfnd_fold : forall todo done st, inv done st -> NoDup (done ++ todo) -> (forall s, In s todo -> In s (map fst K0)) ->
+    (forall l1 s l2, todo = l1 ++ s :: l2 -> forall b, In b (facets s) -> b <> [] -> In b (done ++ l1)) ->
+    inv (done ++ todo) (fold_left (mfnd_step vlt) todo st).
+  Proof.
+    induction todo as [|s todo IH]; intros done st I N Kt Ff.
+    - rewrite app_nil_r. exact I.
+    - cbn [fold_left]. replace (done ++ s :: todo) with ((done ++ [s]) ++ todo) by (rewrite <- app_assoc; reflexivity).
+      apply IH.
+      + apply inv_step; [exact I | | apply Kt; left; reflexivity|].
+        * apply NoDup_remove_2 in N. intros X. apply N. apply in_or_app. left. exact X.
+        * intros b Hb Nb. specialize (Ff [] s todo eq_refl b Hb Nb). rewrite app_nil_r in Ff. exact Ff.
+      + rewrite <- app_assoc. exact N.
+      + intros s' Hs. apply Kt. right. exact Hs.
+      + intros l1 s' l2 E b Hb Nb. rewrite <- app_assoc. cbn [app].
+        apply (Ff (s :: l1) s' l2); [rewrite E; reflexivity | exact Hb | exact Nb].
+  Qed.
+
+  (* any visiting order that lists the simplices once, facets first, computes the face-wise maximum *)
+  Theorem mfnd_over_spec : forall order, Permutation order (map fst K0) ->
+    (forall l1 s l2, order = l1 ++ s :: l2 -> forall b, In b (facets s) -> b <> [] -> In b l1) ->
+    inv (map fst K0) (mfnd_over vlt order K0) /\ inv order (mfnd_over vlt order K0).
+  Proof.
+    intros order P Ff.
+    assert (I : inv order (mfnd_over vlt order K0)).
+    { unfold mfnd_over. apply (mfnd_fold order [] (K0, false)).
+      - unfold inv. cbn [fst snd]. repeat split; auto.
+        + intros s [].
+        + discriminate.
+        + intros (s & _ & _ & [] & _).
+      - cbn [app]. eapply Permutation_NoDup; [apply Permutation_sym; exact P | apply WF].
+      - intros s Hs. eapply Permutation_in; eassumption.
+      - intros l1 s l2 E b Hb Nb. cbn [app]. eapply Ff; eassumption. }
+    split; [|exact I].
+    destruct I as (I1 & I2 & I3 & I4). unfold inv. repeat split.
+    - exact I1.
+    - intros s Hs Hk. apply I2; [eapply Permutation_in; [apply Permutation_sym; exact P | exact Hs] | exact Hk].
+    - intros s Hs. apply I3. intros X. apply Hs. eapply Permutation_in; eassumption.
+    - intros Hm. apply I4 in Hm. destruct Hm as (s & v0 & v & Hs & R). exists s, v0, v. split; [eapply Permutation_in; eassumption | exact R].
+    - intros (s & v0 & v & Hs & R). apply I4. exists s, v0, v. split; [eapply Permutation_in; [apply Permutation_sym; exact P | exact Hs] | exact R].
+  Qed.
+
+  (* the order of rec_for_each_simplex lists the simplices once, facets first *)
+  Lemma traversal_perm : Permutation (traversal K0) (map fst K0).
+  Proof. unfold traversal. apply msort_perm; [apply dfs_le_total | apply dfs_le_trans]. Qed.
+
+  Lemma traversal_facets_first : forall l1 s l2, traversal K0 = l1 ++ s :: l2 -> forall b, In b (facets s) -> b <> [] -> In b l1.
+  Proof.
+    intros l1 s l2 E b Hb Nb.
+    assert (Ks : In s (map fst K0)) by (eapply Permutation_in; [apply traversal_perm | rewrite E; apply in_or_app; right; left; reflexivity]).
+    assert (Kb : In b (map fst K0)) by (eapply CL; [exact Ks | apply facets_subseq; exact Hb | exact Nb]).
+    assert (Ib : In b (traversal K0)) by (eapply Permutation_in; [apply Permutation_sym; apply traversal_perm | exact Kb]).
+    rewrite E in Ib. apply in_app_or in Ib. destruct Ib as [Ib|[Ib|Ib]]; [exact Ib | |].
+    - exfalso. subst b. apply facets_length in Hb. lia.
+    - exfalso.
+      assert (S : sorted dfs_le (traversal K0)) by (unfold traversal; apply msort_sorted; [apply dfs_le_total | apply dfs_le_trans]).
+      unfold sorted in S. rewrite E in S.
+      assert (L : dfs_le s b = true).
+      { clear - S Ib. induction l1 as [|c l1 IH]; cbn [app] in S; inversion S as [|? ? S' F]; subst; [|auto].
+        rewrite Forall_forall in F. apply F. exact Ib. }
+      unfold dfs_le in L. apply negb_true_iff in L.
+      rewrite facet_dfs_lt in L; [discriminate | apply WF; exact Ks | exact Hb].
+  Qed.
+
+  Theorem mfnd_inv : inv (map fst K0) (make_filtration_non_decreasing vlt K0).
+  Proof. unfold make_filtration_non_decreasing. apply mfnd_over_spec; [apply traversal_perm | apply traversal_facets_first]. Qed.
+End Mfnd.
+
+(* the statement shared with C03_Ext.v *)
+Theorem mfnd_spec : mfnd_spec_statement.
+Proof.
+  intros V vlt SW K0 WF CL. destruct (mfnd_inv V vlt SW K0 WF CL) as (I1 & I2 & _ & _).
+  split; [exact I1|]. intros s Hs. apply I2; exact Hs.
+Qed.
+
+Section MfndCorollaries.
+  Variable V : Type.
+  Variable vlt : V -> V -> bool.
+  Hypothesis SW : StrictWeak vlt.
+  Variable K0 : cplx V.
+  Hypothesis WF : wf K0.
+  Hypothesis CL : closed K0.
+  Let R := fst (make_filtration_non_decreasing vlt K0).
+
+  Lemma mfnd_value : forall s, In s (map fst K0) -> exists v, lookup R s = Some v /\ is_sup vlt K0 s v.
+  Proof. intros s Hs. destruct (mfnd_spec V vlt SW K0 WF CL) as [_ H]. apply H. exact Hs. Qed.
+
+  (* same simplices *)
+  Theorem mfnd_same_simplices : map fst R = map fst K0.
+  Proof. destruct (mfnd_spec V vlt SW K0 WF CL) as [H _]. exact H. Qed.
+
+  (* above the input *)
+  Theorem mfnd_above_input : forall s v0 v, lookup K0 s = Some v0 -> lookup R s = Some v -> vlt v v0 = false.
+  Proof.
+    intros s v0 v L0 L1. destruct (mfnd_value s (lookup_key K0 s v0 L0)) as (v' & L1' & _ & UB).
+    rewrite L1 in L1'. inversion L1'; subst v'. apply (UB s v0); [apply subseq_refl | | exact L0].
+    destruct WF as [_ W]. apply W. eapply lookup_key; exact L0.
+  Qed.
+
+  (* monotone *)
+  Theorem mfnd_monotone : monotone vlt R.
+  Proof.
+    intros s t vs vt Ls Lt St.
+    assert (Ks : In s (map fst K0)) by (rewrite <- mfnd_same_simplices; eapply lookup_key; exact Ls).
+    assert (Kt : In t (map fst K0)) by (rewrite <- mfnd_same_simplices; eapply lookup_key; exact Lt).
+    destruct (mfnd_value s Ks) as (vs' & Ls' & _ & UBs). destruct (mfnd_value t Kt) as (vt' & Lt' & (u & Su & Nu & Lu) & _).
+    fold R in Ls', Lt'. rewrite Ls in Ls'. rewrite Lt in Lt'. inversion Ls'; inversion Lt'; subst vs' vt'.
+    apply (UBs u vt); [eapply subseq_trans; eassumption | exact Nu | exact Lu].
+  Qed.
+
+  (* least: every monotone assignment g on the same simplices that is above the input is above the result *)
+  Theorem mfnd_least : forall G : cplx V, monotone vlt G ->
+    (forall s v0, lookup K0 s = Some v0 -> exists g, lookup G s = Some g /\ vlt g v0 = false) ->
+    forall s v g, lookup R s = Some v -> lookup G s = Some g -> vlt g v = false.
+  Proof.
+    intros G MG AB s v g Ls Lg.
+    assert (Ks : In s (map fst K0)) by (rewrite <- mfnd_same_simplices; eapply lookup_key; exact Ls).
+    destruct (mfnd_value s Ks) as (v' & Ls' & (u & Su & Nu & Lu) & _). fold R in Ls'. rewrite Ls in Ls'. inversion Ls'; subst v'.
+    destruct (AB u v Lu) as (gu & Lgu & Hgu).
+    eapply (sw_negtrans vlt SW); [eapply MG; [exact Lg | exact Lgu | exact Su] | exact Hgu].
+  Qed.
+
+  (* the returned flag: true exactly when some value changed (values only grow) *)
+  Theorem mfnd_flag : snd (make_filtration_non_decreasing vlt K0) = true <->
+    exists s v0 v, lookup K0 s = Some v0 /\ lookup R s = Some v /\ vlt v0 v = true.
+  Proof.
+    destruct (mfnd_inv V vlt SW K0 WF CL) as (_ & _ & _ & I4). fold R in I4. rewrite I4. split.
+    - intros (s & v0 & v & _ & H). exists s, v0, v. exact H.
+    - intros (s & v0 & v & L0 & H). exists s, v0, v. split; [eapply lookup_key; exact L0 | auto].
+  Qed.
+
+  (* idempotent flag: on a monotone input nothing changes *)
+  Theorem mfnd_flag_false_on_monotone : monotone vlt K0 -> snd (make_filtration_non_decreasing vlt K0) = false.
+  Proof.
+    intros M. destruct (snd (make_filtration_non_decreasing vlt K0)) eqn:E; [|reflexivity]. exfalso.
+    apply mfnd_flag in E. destruct E as (s & v0 & v & L0 & L1 & Hlt).
+    destruct (mfnd_value s (lookup_key K0 s v0 L0)) as (v' & L1' & (u & Su & Nu & Lu) & _). fold R in L1'. rewrite L1 in L1'. inversion L1'; subst v'.
+    rewrite (M s u v0 v L0 Lu Su) in Hlt. discriminate.
+  Qed.
+End MfndCorollaries.
